@@ -75,6 +75,62 @@ def indexed_fields(facts, res, R):
                                     break
                         if fname:
                             out[cls].setdefault(fname, strip_generics(b.path).split('::')[-1])
+    # bounds-checked `x.get(usize::from(idx)).unwrap()` directly in an accessor is an index too
+    for b in facts.lib_bodies(['cfgrammar']):
+        if not (b.impl_of or '').startswith(G + '<') or b.name == 'new_from_ast_with_validity_info' or b.kind == 'closure':
+            continue
+        for bb, t in b.calls_named('get'):
+            if len(t['args']) < 2:
+                continue
+            if not any(cname(t2) in ('unwrap', 'expect') and b.op_root(t2['args'][0], through=())[0] == t['dest']['l'] for b2, t2 in b.calls()):
+                continue
+            ir, _p, _v = b.op_root(t['args'][1], through=())
+            cls = None
+            for d in b.defs().get(ir, []):
+                if d[1] == 'call' and cname(d[2]) == 'from':
+                    p_ = cpath(d[2]) or ''
+                    for k, c in IDX.items():
+                        if 'From<cfgrammar::idxnewtype::%s<' % k in p_ or 'From<idxnewtype::%s<' % k in p_:
+                            ar, _, _ = b.op_root(d[2]['args'][0], through=())
+                            if 1 <= ar <= b.arg_count:
+                                cls = c
+            if cls is None:
+                continue
+            r, projs, via = b.op_root(t['args'][0], stop_named=False)
+            fn = [q.get('name') for pl in projs for q in pl if isinstance(q, dict) and 'f' in q and q.get('name') not in ('0', None)]
+            if r == 1 and fn:
+                out[cls].setdefault(fn[-1], strip_generics(b.path).split('::')[-1])
+    # bounds-checked `get(usize::from(idx))` whose result is unwrapped is an index too (also inside `opt.map(|v| ..)`)
+    for b in facts.lib_bodies(['cfgrammar']):
+        if b.kind != 'closure':
+            continue
+        parent = facts.body(b.root_parent) if b.root_parent else None
+        if parent is None or not (parent.impl_of or '').startswith(G + '<') or parent.name == 'new_from_ast_with_validity_info':
+            continue
+        gets = [(bb, t) for bb, t in b.calls_named('get') if any(cname(t2) in ('unwrap', 'expect') and b.op_root(t2['args'][0], through=())[0] == t['dest']['l']
+                                                              for b2, t2 in b.calls())]
+        if not gets:
+            continue
+        cls = None
+        for i in range(1, parent.arg_count + 1):
+            for k, c in IDX.items():
+                if parent.lty(i).startswith('cfgrammar::idxnewtype::%s<' % k):
+                    cls = c
+        if cls is None:
+            continue
+        # the single field of self the parent reads
+        fnames = set()
+        for bb, i, st in parent.stmts():
+            if st['k'] != 'assign':
+                continue
+            pls = [st['rv'][k] for k in ('ref', 'rawptr', 'discr') if k in st['rv']] + [op_place(o) for o in rv_operands(st['rv'])]
+            for pl in pls:
+                if pl and pl['l'] == 1:
+                    for q in pl['p']:
+                        if isinstance(q, dict) and 'name' in q and 'f' in q:
+                            fnames.add(q['name'])
+        if len(fnames) == 1:
+            out[cls].setdefault(fnames.pop(), strip_generics(parent.path).split('::')[-1])
     return out
 
 
@@ -206,10 +262,15 @@ def r101(facts, res):
                 continue
             v, projs, via = fld[f]
             where = loc_of(b, lit[0])
+            if b.lty(v).startswith('core::option::Option<'):
+                # `Some(table)` on one branch, `None` on the other: the table is what gets indexed
+                for d in b.defs().get(v, []):
+                    if d[1] == 'stmt' and 'agg' in d[2] and isinstance(d[2]['agg'], dict) and d[2]['agg'].get('vname') == 'Some':
+                        v, projs, via = b.op_root(d[2]['ops'][0], through=CHASE, stop_named=True)
             if v == leader:
                 res.ok(R, key, where, 'is the class leader `%s` (its len() is %s); indexed by %s()' % (lname, lenfield[cls], acc))
                 continue
-            if v <= b.arg_count or not b.lty(v).startswith('alloc::vec::Vec<'):
+            if v <= b.arg_count or not b.lty(v).startswith(('alloc::vec::Vec<', 'vob::Vob<')):
                 # not a local vector under construction: e.g. collected straight from the AST
                 desc = describe(b, v, projs)
                 res.bad(R, key, where,
